@@ -42,10 +42,22 @@ Buffer_init(BufferObject *self, PyObject *args, PyObject *kwargs)
 
     if (data != NULL) {
         self->base = malloc(data_len);
+        if (self->base == NULL) {
+            PyErr_NoMemory();
+            return -1;
+        }
         self->end = self->base + data_len;
         memcpy(self->base, data, data_len);
     } else {
+        if (capacity < 0) {
+            PyErr_SetString(PyExc_ValueError, "Capacity must not be negative");
+            return -1;
+        }
         self->base = malloc(capacity);
+        if (self->base == NULL) {
+            PyErr_NoMemory();
+            return -1;
+        }
         self->end = self->base + capacity;
     }
     self->pos = self->base;
